@@ -82,7 +82,7 @@ impl Property for C04 {
         ]
     }
     fn cases(&self, tier: Tier) -> usize {
-        tier.pick(6000, 40_000)
+        tier.pick(15000, 300_000)
     }
     fn strategy(&self, tier: Tier) -> BoxedStrategy<History> {
         history(W_ALL, tier.pick(8, 16))
